@@ -203,6 +203,10 @@ def run(col, configs, tier):
         guarded(col, X.rule_binary_factor, facts)
         guarded(col, X.rule_slice_length_pairing, facts)
         guarded(col, X.rule_power_index_guards, facts)
+        guarded(col, X.rule_unchecked_window, facts)
+        guarded(col, X.rule_take_n_window_size, facts)
+        guarded(col, X.rule_lossy_marker, facts)
+        guarded(col, X.rule_lossy_independent_shortcuts, facts)
         # the `_ => unreachable!()` arm of every peek dispatch is unreachable only if all 16 flag combinations are arms
         guarded(col, SEP.rule_peek_dispatch, facts)
         guarded(col, X.rule_exponent_bound, facts)
